@@ -490,7 +490,8 @@ def setitem(eng, st, recv, idx, val, node):
         k, v = box(idx, recv.kk), box(val, recv.vk)
         has = _simp(z3.Contains(recv.keys, z3.Unit(k)))
         vals2 = z3.Store(recv.vals, k, v)
-        if z3.is_true(has):
+        if z3.is_true(has) or (not z3.is_false(has) and not eng.feasible(st.assume(z3.Not(has)))):
+            # the key is known to be present on this path: the key sequence is unchanged
             return [(st, DictV(recv.kk, recv.vk, recv.keys, vals2), NONE)]
         # no path split: an existing key keeps its position, a new key is appended.  The new key
         # sequence is a fresh constant characterised pointwise (length, membership, every position):
@@ -568,6 +569,27 @@ def mutate(eng, st, recv, meth, pos, kw, node):
         if z3.is_int_value(iv) and iv.as_long() == 0:
             return [(st, ListV(recv.elem, z3.Concat(unit, recv.t)), NONE)]
         return [(st, ListV(recv.elem, z3.Concat(z3.SubSeq(recv.t, 0, i), unit, z3.SubSeq(recv.t, i, n - i))), NONE)]
+    if isinstance(recv, LitDict) and meth == "pop" and pos and isinstance(pos[0], StrV) and z3.is_string_value(_simp(pos[0].t)):
+        key = _simp(pos[0].t).as_string()
+        d = dict(recv.items)
+        if key in d:
+            v = d.pop(key)
+            return [(st, LitDict(d), v)]
+        if len(pos) > 1:
+            return [(st, recv, pos[1])]
+        return [(st, recv, RaiseV("KeyError", None, f"pop L{node.lineno}"))]
+    if isinstance(recv, LitDict) and meth == "update" and len(pos) == 1 and not kw:
+        outs = []
+        for s2, o in eng.split(st, pos[0]):
+            if isinstance(o, LitDict):
+                outs.append((s2, LitDict({**recv.items, **o.items}), NONE))
+            elif isinstance(o, DictV) and not recv.items:
+                outs.append((s2, clone(o), NONE))      # {}.update(d): a copy of d
+            elif isinstance(o, NoneV):
+                outs.append((s2, recv, RaiseV("TypeError", None, f"update(None) L{node.lineno}")))
+            else:
+                raise Unsupported(f"dict literal .update({type(o).__name__})")
+        return outs
     if isinstance(recv, SetV) and meth == "add":
         return [(st, SetV(recv.elem, z3.Store(recv.t, box(pos[0], recv.elem), True)), NONE)]
     if isinstance(recv, ObjV) and recv.cls == "Writer" and meth == "write" and "buf" in recv.fields:
